@@ -733,6 +733,147 @@ Proof.
     intros v Hv; injection Hv as <-; lia.
   - intros v Hv. cbn in Hv. injection Hv as <-. reflexivity.
 Qed.
+(* ---- termination (C02 / C09): a measure on (r, pc, n) that every yielded action decreases ---- *)
+Definition inner (q : Mixed.pc) (n r : Z) : Z :=
+  match q with Mixed.PAfterRev => N + 2 | Mixed.PDoRev | Mixed.PDone | Mixed.PFR2 _ => 0 | _ => N - r - n + 1 end.
+Definition muS (sch : sched) : Z :=
+  match ob sch with OMixed _ _ _ _ _ ms _ => (N - Mixed.r_ ms) * (N + 3) + inner (Mixed.pcv ms) (Mixed.n_ ms) (Mixed.r_ ms) | _ => 0 end.
+Definition inner_like (q : Mixed.pc) : bool := match q with Mixed.PInner _ | Mixed.PAfterAdj _ _ | Mixed.PAfterIcs _ _ => true | _ => false end.
+Lemma Inv_n_le q n r sn x : MInv (toM q n r sn) x -> pc_ok q = true -> inner_like q = true -> n <= N - r.
+Proof.
+  intros HI Hok Hq. unfold MixInv.Inv, MixInv.InvCore, MixInv.norm, toM in HI. cbn [MixInv.pcv MixInv.n_ MixInv.r_ MixInv.snaps] in HI.
+  destruct q as [stype|a b|a b| | | |]; cbn [inner_like] in Hq; try discriminate.
+  - assert (Hp : pcM (Mixed.PInner stype) = MixInv.PInner (match stype with KNone => None | k => Some (k3 k) end)) by (destruct stype; reflexivity).
+    rewrite Hp in HI. cbn [MixInv.mk MixInv.pcv MixInv.n_ MixInv.r_ MixInv.snaps] in HI.
+    destruct HI as (_ & _ & _ & _ & _ & [H|[H|H]]).
+    + destruct H as (H & _); lia.
+    + destruct H as (e & rest & Hs & Hwf & _). rewrite Hs in Hwf. cbn [MixInv.WF] in Hwf. lia.
+    + destruct H as (H & _); lia.
+  - cbn [pcM MixInv.mk MixInv.pcv MixInv.n_ MixInv.r_ MixInv.snaps] in HI.
+    destruct HI as (_ & _ & _ & _ & _ & [H|[H|H]]).
+    + destruct H as (H & _); lia.
+    + destruct H as (e & rest & Hs & Hwf & _). rewrite Hs in Hwf. cbn [MixInv.WF] in Hwf. lia.
+    + destruct H as (H & _); lia.
+  - cbn [pcM MixInv.mk MixInv.pcv MixInv.n_ MixInv.r_ MixInv.snaps] in HI.
+    destruct HI as (_ & _ & _ & _ & _ & [H|[H|H]]).
+    + destruct H as (H & _); lia.
+    + destruct H as (e & rest & Hs & Hwf & _). rewrite Hs in Hwf. cbn [MixInv.WF] in Hwf. lia.
+    + destruct H as (H & _); lia.
+Qed.
+Lemma mexec_fwd x n0 n1 wi wa sg x' : MixInv.exec N S_ stg x (Forward n0 n1 wi wa sg) = Some x' -> MixInv.fwd x = Some n0 /\ n0 < n1.
+Proof.
+  cbn [MixInv.exec]. destruct (MixInv.fwd x) as [f|]; [|discriminate].
+  destruct (Z.eqb_spec f n0), (Z.ltb_spec n0 n1); cbn [andb negb]; try discriminate. intros _. subst. auto.
+Qed.
+Lemma pcM_inner_like q : pc_ok q = true ->
+  (match pcM q with MixInv.PInner (Some _) | MixInv.PAfterAdj _ _ | MixInv.PAfterIcs _ _ => True | _ => False end -> inner_like q = true) /\
+  (pcM q = MixInv.PDoRev -> q = Mixed.PDoRev) /\ (pcM q = MixInv.PAfterRev -> q = Mixed.PAfterRev) /\
+  (pcM q = MixInv.PInner None -> q = Mixed.PInner KNone) /\ (pcM q = MixInv.PDone -> q = Mixed.PDone).
+Proof.
+  destruct q as [k| | | | | |]; cbn [pc_ok pcM inner_like]; intros H; try discriminate; repeat split; try tauto; try discriminate; try reflexivity.
+  all: destruct k; cbn in *; try discriminate; try tauto; reflexivity.
+Qed.
+Lemma muS_nonneg sch m : J sch m -> is_exhausted sch = false -> 0 <= muS sch.
+Proof.
+  intros HJ He. inversion HJ as [f q n r sn stt m0 x Hf Hq Hnd Hsn Hm HI HR HNN Hfw Hn0|f ms fin stt m0 Hfin Hexd Hm Htot]; subst.
+  - destruct (Inv_facts q n r sn x HI Hq) as (_ & Hr & _).
+    unfold muS, xsched. cbn [ob mst Mixed.r_ Mixed.pcv Mixed.n_].
+    assert (Hin : 0 <= inner q n r).
+    { destruct (inner_like q) eqn:El.
+      - pose proof (Inv_n_le q n r sn x HI Hq El). destruct q; cbn [inner_like] in El; try discriminate; cbn [inner]; lia.
+      - destruct q; cbn [inner_like] in El; try discriminate; cbn [inner]; lia. }
+    nia.
+  - cbn in He. congruence.
+Qed.
+Lemma muS_dec sch m : J sch m -> is_exhausted sch = false -> muS (fst (Sched.next sch)) < muS sch.
+Proof.
+  intros HJ He. inversion HJ as [f q n r sn stt m0 x Hf Hq Hnd Hsn Hm HI HR HNN Hfw Hn0|f ms fin stt m0 Hfin Hexd Hm Htot]; subst; [|cbn in He; congruence].
+  pose proof (MixInv.step_ok plan3 C3 plan3_1 plan3_ge2 C3_1 C3_ics C3_adj N S_ stg stg_cp (toM q n r sn) x 0%nat HI) as Hgood.
+  unfold MixInv.Good in Hgood.
+  destruct (MixInv.resume plan3 N S_ stg 3 (toM q n r sn)) as [t' o] eqn:Eres.
+  destruct o as [a| |]; [| |contradiction].
+  2:{ exfalso. unfold toM in Hgood. cbn [MixInv.pcv] in Hgood. destruct q as [stype| | | | | |]; cbn [pcM pc_ok] in *; try discriminate; try congruence.
+      destruct stype; discriminate. }
+  destruct Hgood as (x' & Hex & HI').
+  destruct (Inv_facts q n r sn x HI Hq) as (Hrr & Hr & Hlen & Htop).
+  destruct (resume_agrees N S_ stg f Hf 3 q n r sn false t' a Hq Hsn Hlen ltac:(lia) Hn0 (fun E => proj2 (Htop E)) Eres)
+    as (q' & n' & r' & sn' & e' & Hon & Ht' & Hq' & Hsn' & He' & Hed & Hr' & Hn' & Hload & Hcl).
+  pose proof (MixInv.resume_pc plan3 N S_ stg 3 _ _ _ Eres) as Hpc. rewrite Ht' in Hpc. unfold toM in Hpc. cbn [MixInv.pcv] in Hpc.
+  pose proof (MixInv.resume_src plan3 N S_ stg 3 _ _ _ Eres) as Hsrc. unfold toM in Hsrc. cbn [MixInv.pcv] in Hsrc.
+  destruct (pcM_inner_like q' Hq') as (Pin & Pdo & Paf & Pno & Pdn).
+  destruct (pcM_inner_like q Hq) as (Qin & Qdo & Qaf & Qno & Qdn).
+  unfold Sched.next, xsched. cbn [ob]. change {| Mixed.max_n := N; Mixed.snapshots := S_; Mixed.stg := stg; Mixed.plan := f |} with (cfgM N S_ stg f).
+  rewrite Hon. unfold muS. cbn [fst ob mst Mixed.r_ Mixed.pcv Mixed.n_].
+  (* the source state is inner-like unless stated otherwise *)
+  assert (Hsrc_in : forall b, MixInv.before_ok a (pcM q) = true -> (match a with Forward _ _ _ _ _ | EndForward => true | _ => false end) = b -> b = true -> inner_like q = true).
+  { intros b Hb Hab ->. destruct a; try discriminate; destruct (pcM q) as [[k|]| | | | |] eqn:Ep; cbn in Hb; try discriminate;
+      destruct q as [kk| | | | | |]; cbn [pcM pc_ok inner_like] in *; try reflexivity; try discriminate; destruct kk; discriminate. }
+  destruct a as [n0 n1 wi wa sg|n1 n0 cl|k s1 s2|k s1 s2| |].
+  - (* Forward *)
+    destruct (mexec_fwd x n0 n1 wi wa sg x' Hex) as [Hfx Hlt]. pose proof (Hfw n0 Hfx) as En. subst n0. subst r' n'.
+    pose proof (Hsrc_in true Hsrc eq_refl eq_refl) as Hil.
+    assert (Hil' : inner_like q' = true) by (apply Pin; destruct (pcM q') as [[k|]| | | | |]; cbn in Hpc; try discriminate; exact I).
+    destruct q; cbn [inner_like] in Hil; try discriminate; destruct q'; cbn [inner_like] in Hil'; try discriminate; cbn [inner]; lia.
+  - (* Reverse *)
+    subst r' n'. assert (Hq'r : q' = Mixed.PAfterRev) by (apply Paf; destruct (pcM q') as [[k|]| | | | |]; cbn in Hpc; try discriminate; reflexivity).
+    subst q'. cbn [inner].
+    assert (Hin : 0 <= inner q n r).
+    { destruct (inner_like q) eqn:El.
+      - pose proof (Inv_n_le q n r sn x HI Hq El). destruct q; cbn [inner_like] in El; try discriminate; cbn [inner]; lia.
+      - destruct q; cbn [inner_like] in El; try discriminate; cbn [inner]; lia. }
+    nia.
+  - (* Copy *)
+    subst r'. destruct (Hload k s1 s2 (or_introl eq_refl)) as (Eq & kk & e0 & rest & Esn & Hi & Ha). subst q.
+    assert (Hq'n : q' = Mixed.PInner KNone) by (apply Pno; destruct (pcM q') as [[k0|]| | | | |]; cbn in Hpc; try discriminate; reflexivity).
+    subst q'. cbn [inner]. destruct (proj2 (Htop eq_refl) kk k e0 rest Esn).
+    assert (0 <= n') by (subst sn; inversion Hsn as [|? ? Hk _]; subst; cbn [fst] in Hk; destruct kk; cbn in Hk; try discriminate; [rewrite (Ha eq_refl)|rewrite (Hi eq_refl)]; lia).
+    lia.
+  - (* Move *)
+    subst r'. destruct (Hload k s1 s2 (or_intror eq_refl)) as (Eq & kk & e0 & rest & Esn & Hi & Ha). subst q.
+    assert (Hq'n : q' = Mixed.PInner KNone) by (apply Pno; destruct (pcM q') as [[k0|]| | | | |]; cbn in Hpc; try discriminate; reflexivity).
+    subst q'. cbn [inner]. destruct (proj2 (Htop eq_refl) kk k e0 rest Esn).
+    assert (0 <= n') by (subst sn; inversion Hsn as [|? ? Hk _]; subst; cbn [fst] in Hk; destruct kk; cbn in Hk; try discriminate; [rewrite (Ha eq_refl)|rewrite (Hi eq_refl)]; lia).
+    lia.
+  - (* EndForward *)
+    subst r' n'. pose proof (Hsrc_in true Hsrc eq_refl eq_refl) as Hil.
+    assert (Hq'd : q' = Mixed.PDoRev) by (apply Pdo; destruct (pcM q') as [[k0|]| | | | |]; cbn in Hpc; try discriminate; reflexivity).
+    subst q'. cbn [inner]. pose proof (Inv_n_le q n r sn x HI Hq Hil). destruct q; cbn [inner_like] in Hil; try discriminate; cbn [inner]; lia.
+  - (* EndReverse *)
+    subst r' n'. assert (Hq'd : q' = Mixed.PDone) by (apply Pdn; destruct (pcM q') as [[k0|]| | | | |]; cbn in Hpc; try discriminate; reflexivity).
+    subst q'. cbn [inner].
+    assert (Hqa : q = Mixed.PAfterRev) by (apply Qaf; destruct (pcM q) as [[k0|]| | | | |]; cbn in Hsrc; try discriminate; reflexivity).
+    subst q. cbn [inner]. lia.
+Qed.
+Lemma exh_stays sch m : J sch m -> is_exhausted sch = true -> is_exhausted (fst (Sched.next sch)) = true.
+Proof. intros HJ He. pose proof (J_flags sch m HJ) as [_ Hfl]. destruct (snd (Sched.next sch)) as [a| |e] eqn:Eo.
+  - inversion HJ as [f q n r sn stt m0 x Hf Hq Hnd Hsn Hm HI HR HNN Hfw Hn0|f ms fin stt m0 Hfin Hexd Hm Htot]; subst; [cbn in He; discriminate|].
+    unfold Sched.next, xsched in Eo |- *. cbn [ob] in Eo |- *. destruct fin; [cbn in Eo; discriminate|].
+    destruct Hfin as [Hfin|Hfin]; [discriminate|]. destruct ms as [q n r sn e]. cbn [Mixed.pcv] in Hfin. subst q. cbn in Eo. discriminate.
+  - exact Hfl.
+  - inversion HJ as [f q n r sn stt m0 x Hf Hq Hnd Hsn Hm HI HR HNN Hfw Hn0|f ms fin stt m0 Hfin Hexd Hm Htot]; subst; [cbn in He; discriminate|].
+    unfold Sched.next, xsched in Eo |- *. cbn [ob] in Eo |- *. destruct fin; [cbn in Eo; discriminate|].
+    destruct Hfin as [Hfin|Hfin]; [discriminate|]. destruct ms as [q n r sn e0]. cbn [Mixed.pcv] in Hfin. subst q. cbn in Eo. discriminate.
+Qed.
+
+Theorem mixed_cfg_terminates : forall k, N * (N + 3) + N + 1 < Z.of_nat k ->
+  let '(s', m, _) := run_ops pmxN sch0 mon0 (repeat Next k) in is_exhausted s' = true /\ fwd_total (cnt (mx m)) = C3 N S_.
+Proof.
+  intros k Hk. destruct (start_J) as (f & Hf & Hnext & HJ0).
+  destruct k as [|k]; [lia|].
+  assert (Hsame : run_ops pmxN sch0 mon0 (repeat Next (S k)) = run_ops pmxN (xsched f st0 false false) mon0 (repeat Next (S k))).
+  { cbn [repeat run_ops]. rewrite Hnext. reflexivity. }
+  rewrite Hsame.
+  pose proof (run_nexts_fin pmxN J muS is_exhausted J_step muS_nonneg muS_dec exh_stays (S k) _ _ HJ0 eq_refl) as Hfin.
+  pose proof (run_nexts pmxN J J_step (S k) _ _ HJ0 eq_refl) as Hrun.
+  destruct (run_ops pmxN (xsched f st0 false false) mon0 (repeat Next (S k))) as [[s' m'] ls]. cbn [fst] in Hfin.
+  destruct Hrun as (HJ & _ & _).
+  assert (He : is_exhausted s' = true).
+  { apply Hfin. right. unfold muS, xsched, st0. cbn [ob Mixed.mk Mixed.r_ Mixed.pcv Mixed.n_ inner]. nia. }
+  split; [exact He|].
+  inversion HJ as [f0 q n r sn stt m0 x Hf0 Hq Hnd Hsn Hm HI HR HNN Hfw Hn0|f0 ms fin stt m0 Hfin' Hexd Hm Htot]; subst.
+  - cbn in He. discriminate.
+  - exact Htot.
+Qed.
 End RUN.
 
 (* MixedCheckpointSchedule, end to end: both storages, both planner paths, every N and every unit count *)
@@ -764,3 +905,12 @@ Proof.
   eexists _, _, _. split; [reflexivity|]. exact Hrun.
 Qed.
 Print Assumptions mixed_flags.
+
+(* C02 / C06 / C09: the stream is complete: within N (N + 3) + N + 2 requests the schedule is exhausted, and by then the
+   reference executor has carried out exactly C N S forward steps *)
+Theorem mixed_terminates N s sg (tab : bool) k : 1 <= N -> 0 <= s -> (2 <= N -> 1 <= s) -> sg = RAM \/ sg = DISK ->
+  N * (N + 3) + N + 1 < Z.of_nat k ->
+  let '(s', m, _) := run_ops (pmx N (Z.min s (N - 1)) sg) (sch0 N (Z.min s (N - 1)) sg tab) mon0 (repeat Next k) in
+  is_exhausted s' = true /\ fwd_total (cnt (mx m)) = C3 N (Z.min s (N - 1)).
+Proof. intros HN Hs0 Hs Hsg Hk. exact (mixed_cfg_terminates N (Z.min s (N - 1)) sg tab HN ltac:(lia) ltac:(lia) Hsg k Hk). Qed.
+Print Assumptions mixed_terminates.
